@@ -81,8 +81,24 @@ func (v *VM) btErr(r any) error {
 		}
 		lines = append(lines, fmt.Sprintf("\t%v", pos.String(v.globals)))
 	}
-	return errors.New(strings.Join(lines, "\n"))
+	msg := strings.Join(lines, "\n")
+	if cause, ok := r.(error); ok {
+		// an error raised by a native callback (or the error of a nested call that a
+		// native raises again) stays in the chain of the error of the outer call
+		return &raisedError{msg: msg, cause: cause}
+	}
+	return errors.New(msg)
 }
+
+// raisedError is the error of a run that a Go error ended: it reads like every other
+// VM error (position, instruction, text, backtrace) and unwraps to the error raised.
+type raisedError struct {
+	msg   string
+	cause error
+}
+
+func (e *raisedError) Error() string { return e.msg }
+func (e *raisedError) Unwrap() error { return e.cause }
 
 func (v *VM) run(codes []instruction, slots int) (rets []Value, err error) {
 	vm := VM{
